@@ -3,12 +3,12 @@
    Model: Algo/FullLN.v (full_ln = full_ln_sorted after the stable sort; full_ln_sorted is everything after the
    sort, for an arbitrary frame s).  Specification: Algo/FullLNSpec.v (Spec, written from the property text).
    Domain: wf_chart (one m.hits that is a HitList, one m.holds that is a HoldList, hits without and holds with a
-   length), gap >= 0 where stated.  Guards excluding the two defect classes of the pinned tree:
-     no_extra : no OTHER list of the chart is a non-empty HitList/HoldList instance (StepMania mines, rolls, ...);
-     no_listy : the classes of m.hits/m.holds declare no list-valued default (Quaver keysounds).
-   Without the guards the statements are false of the faithful model: see the *_refuted theorems. *)
+   length), gap >= 0 where stated.  Guard excluding the defect class of the pinned tree:
+     no_extra : no OTHER list of the chart is a non-empty HitList/HoldList instance (StepMania mines, rolls, ...).
+   Without the guard the statements are false of the faithful model: see the *_refuted theorems. *)
 From Coq Require Import ZArith List Bool Permutation Sorted.
 From RV Require Import Algo.FullLN Algo.FullLNSpec Proofs.FullLNProofs.
+From RV Require Corr.RunC17.
 Import ListNotations.
 Open Scope Z_scope.
 
@@ -28,7 +28,7 @@ Proof. exact full_ln_spec. Qed.
 
 (* the operation does not fail *)
 Theorem C17_full_ln_defined : forall m s gap thr,
-  wf_chart m = true -> no_listy m = true -> exists m', full_ln_sorted m s gap thr = Some m'.
+  wf_chart m = true -> exists m', full_ln_sorted m s gap thr = Some m'.
 Proof. exact full_ln_sorted_defined. Qed.
 
 (* note count: the multiset of (column, time) is preserved *)
@@ -67,32 +67,35 @@ Proof. exact no_overlap_of_spec. Qed.
 Theorem C17_spec_last_kept : forall gap thr I O, NotesSpec gap thr I O -> LastKept I O.
 Proof. exact last_kept_of_spec. Qed.
 
-(* ---- refuted without the guards (defects of the pinned tree; witnesses replayed on the implementation) *)
+(* Agreement under the correspondence relation evaluated on every run (Corr/RunC17.v: equal to the model's output as
+   multisets of rows for some admissible order of tied notes, other lists and layout equal) transfers the theorem
+   to the implementation's output. *)
+Theorem C17_corr_transfers : forall m gap thr out,
+  wf_chart m = true -> no_extra m = true -> RunC17.corr m gap thr out = true -> SpecO m gap thr out.
+Proof. exact corr_transfers. Qed.
+
+(* ---- refuted without the guard (defect of the pinned tree; the witness is replayed on the implementation) *)
 Theorem C17_full_ln_count_refuted :
-  exists m gap thr m', wf_chart m = true /\ no_listy m = true /\ 0 <= gap /\ 0 <= thr /\
+  exists m gap thr m', wf_chart m = true /\ 0 <= gap /\ 0 <= thr /\
     full_ln m gap thr = Some m' /\ ~ CountKept (chart_notes m) (chart_notes m').
 Proof. exact full_ln_count_refuted. Qed.
 
 Theorem C17_full_ln_spec_refuted :
-  exists m gap thr m', wf_chart m = true /\ no_listy m = true /\ 0 <= gap /\ 0 <= thr /\
+  exists m gap thr m', wf_chart m = true /\ 0 <= gap /\ 0 <= thr /\
     full_ln m gap thr = Some m' /\ ~ Spec m gap thr m'.
 Proof. exact full_ln_spec_refuted. Qed.
-
-Theorem C17_full_ln_defined_refuted :
-  exists m gap thr, wf_chart m = true /\ no_extra m = true /\ 0 <= gap /\ 0 <= thr /\ full_ln m gap thr = None.
-Proof. exact full_ln_defined_refuted. Qed.
 
 (* ---- non-vacuity: a chart inside the domain on which every branch is taken (hold generated, hit generated,
    tie at equal time, last hold kept, last hit kept, single-note column, other list carried over) *)
 Example C17_nonvacuous :
-  let m := [ mkTL SOther CNone false [] [7; 8];
-             mkTL SHits CHit false [mkNote 0 0 None; mkNote 0 1000 None; mkNote 2 300 None; mkNote 0 400 None] [];
-             mkTL SHolds CHold false [mkNote 0 400 (Some 50); mkNote 1 0 (Some 10); mkNote 1 700 (Some 2000)] [] ] in
-  wf_chart m = true /\ no_extra m = true /\ no_listy m = true /\
+  let m := [ mkTL SOther CNone [] [7; 8];
+             mkTL SHits CHit [mkNote 0 0 None; mkNote 0 1000 None; mkNote 2 300 None; mkNote 0 400 None] [];
+             mkTL SHolds CHold [mkNote 0 400 (Some 50); mkNote 1 0 (Some 10); mkNote 1 700 (Some 2000)] [] ] in
+  wf_chart m = true /\ no_extra m = true /\
   full_ln m 150 100 =
-    Some [ mkTL SOther CNone false [] [7; 8];
-           mkTL SHits CHit false [mkNote 0 400 None; mkNote 0 1000 None; mkNote 2 300 None] [];
-           mkTL SHolds CHold false [mkNote 0 0 (Some 250); mkNote 0 400 (Some 450); mkNote 1 0 (Some 550);
+    Some [ mkTL SOther CNone [] [7; 8];
+           mkTL SHits CHit [mkNote 0 400 None; mkNote 0 1000 None; mkNote 2 300 None] [];
+           mkTL SHolds CHold [mkNote 0 0 (Some 250); mkNote 0 400 (Some 450); mkNote 1 0 (Some 550);
                                     mkNote 1 700 (Some 2000)] [] ] /\
   specb m 150 100 (full_ln m 150 100) = true.
 Proof. vm_compute. repeat split; reflexivity. Qed.
